@@ -387,3 +387,85 @@ Proof.
   split; [exact step_local|]. split; [exact step_is_act|]. split; [exact step_frame|].
   split; [exact step_pure|exact step_commute].
 Qed.
+
+(* ===================================================================== the GUARDS are exact: the check is demanded on
+   every input of the quantifier (a guard that were only sound could silently skip the property check) *)
+Lemma seg_valid_b_complete s : seg_valid s -> seg_valid_b s = true.
+Proof.
+  unfold seg_valid_b, seg_valid. intros (H1 & H2 & H3). rewrite !andb_true_iff, !Nat.leb_le.
+  split; [split; assumption|].
+  destruct (order_eqb (so s) NA) eqn:E1, (sc s =? 1) eqn:E2; try reflexivity; exfalso.
+  - apply order_eqb_eq in E1. apply H3 in E1. apply Nat.eqb_neq in E2. contradiction.
+  - apply Nat.eqb_eq in E2. apply H3 in E2. apply order_eqb_eq in E2. congruence.
+Qed.
+
+Lemma valid_dtype_b_complete d : valid_dtype d -> valid_dtype_b d = true.
+Proof.
+  unfold valid_dtype_b, valid_dtype. intros [Hne HF]. destruct (layout d) as [|s t] eqn:E; [congruence|].
+  rewrite forallb_forall. rewrite Forall_forall in HF. intros x Hx. apply seg_valid_b_complete, HF, Hx.
+Qed.
+
+Lemma in_bigs ml d b : In b (bigs ml d) <-> exists s, In s (layout d) /\ endian_of ml (so s) = Some b.
+Proof.
+  unfold bigs. rewrite in_flat_map. split; intros (s & Hs & H); exists s; split; auto.
+  - destruct (endian_of ml (so s)) as [c|]; [|destruct H]. destruct H as [<-|[]]. reflexivity.
+  - rewrite H. left. reflexivity.
+Qed.
+
+Lemma uniform_b_complete ml d : uniform ml d -> uniform_b ml d = true.
+Proof.
+  intro U. unfold uniform_b. destruct (bigs ml d) as [|b t] eqn:E; [reflexivity|].
+  rewrite forallb_forall. intros x Hx.
+  assert (Ib : In b (bigs ml d)) by (rewrite E; left; reflexivity).
+  assert (Ix : In x (bigs ml d)) by (rewrite E; right; exact Hx).
+  apply in_bigs in Ib as (s1 & H1 & E1). apply in_bigs in Ix as (s2 & H2 & E2).
+  rewrite (U s1 s2 b x H1 H2 E1 E2). apply Bool.eqb_reflx.
+Qed.
+
+Lemma stripped_check_complete din dparsed : stripped_ok din dparsed -> stripped_check din dparsed = true.
+Proof.
+  unfold stripped_check, stripped_ok. intros [H1 H2]. rewrite andb_true_iff. split.
+  - apply dtype_eqb_eq. exact H1.
+  - unfold native_only in H2. rewrite Forall_forall in H2. rewrite forallb_forall. intros o Ho.
+    destruct (H2 o Ho) as [->| ->]; reflexivity.
+Qed.
+
+Lemma rec_native_check_core_complete ml a o :
+  arr_values ml (o_res o) = arr_values ml a -> all_native ml (adt (o_res o)) = true ->
+  same_structure (adt (o_res o)) (adt a) -> ashape (o_res o) = ashape a -> o_inp o = a ->
+  rec_native_check_core ml a o = true.
+Proof.
+  intros H1 H2 H3 H4 H5. unfold rec_native_check_core. rewrite !andb_true_iff. repeat split.
+  - apply values_eqb_eq. exact H1.
+  - exact H2.
+  - apply dtype_eqb_eq. exact H3.
+  - apply natlist_eqb_eq. exact H4.
+  - apply arr_eqb_eq. exact H5.
+Qed.
+
+Lemma view_check_complete d base idx ip o1 base1 :
+  (ip = true -> gather [] idx base1 = rows_of d (adata (o_res o1))) -> (ip = false -> base1 = base) ->
+  view_check d base idx ip o1 base1 = true.
+Proof.
+  intros H1 H2. unfold view_check. destruct ip; apply (list_eqb_spec bytes_eqb bytes_eqb_eq); auto.
+Qed.
+
+Lemma guards_exact :
+  (forall d, valid_dtype_b d = true <-> valid_dtype d)
+  /\ (forall ml d, uniform_b ml d = true <-> uniform ml d)
+  /\ (forall din dparsed, stripped_check din dparsed = true <-> stripped_ok din dparsed)
+  /\ (forall ml a o, rec_native_check_core ml a o = true <->
+        arr_values ml (o_res o) = arr_values ml a /\ all_native ml (adt (o_res o)) = true
+        /\ (same_structure (adt (o_res o)) (adt a) /\ ashape (o_res o) = ashape a) /\ o_inp o = a)
+  /\ (forall d base idx ip o1 base1, view_check d base idx ip o1 base1 = true <->
+        (ip = true -> gather [] idx base1 = rows_of d (adata (o_res o1))) /\ (ip = false -> base1 = base)).
+Proof.
+  split; [intro d; split; [apply valid_dtype_b_sound|apply valid_dtype_b_complete]|].
+  split; [intros ml d; split; [apply uniform_b_sound|apply uniform_b_complete]|].
+  split; [intros a b; split; [apply stripped_check_sound|apply stripped_check_complete]|].
+  split.
+  - intros ml a o. split; [apply rec_native_check_core_sound|].
+    intros (H1 & H2 & (H3 & H4) & H5). apply rec_native_check_core_complete; assumption.
+  - intros d base idx ip o1 base1. split; [apply view_check_sound|].
+    intros [H1 H2]. apply view_check_complete; assumption.
+Qed.
